@@ -200,13 +200,14 @@ emit_translate = template(is_func=True,
                                      'default'),
                           func_defaults=(None,),
                           source=r"""
-    target = translate(
-        msgid,
-        default=default,
-        domain=__i18n_domain,
-        context=__i18n_context,
-        target_language=target_language
-    )""")
+    if target is not None:
+        target = translate(
+            msgid,
+            default=default,
+            domain=__i18n_domain,
+            context=__i18n_context,
+            target_language=target_language
+        )""")
 
 
 emit_func_convert_and_escape = template(
